@@ -95,6 +95,11 @@ CLAIMED = {
    text="Each generated template (emphasis on maps of 2..12 entries consumed by for/tablerow/array filters/printing/json, pointer-bearing values, Drops, int- and mixed-keyed maps) is rendered about 21 times through every entry point, on fresh parses and engines and for a subset in a fresh process, every time against freshly built bindings with permuted map insertion order while older realisations stay alive; all results must be byte-identical. String-only environments are also run through the built cmd/liquid binary.",
    note="With 8+ entries and 20 renders an order dependence escapes with probability < 1e-12; address dependence is exposed by re-realising bindings (a deterministic Go program gets the same addresses in every process). The date filter with 'now' and the time zone are not exercised (excepted by the statement). Four listed known findings (printing a struct/map with a nested pointer) have a dedicated sub-check so that listing them hides nothing else.",
    ref="DESIGN.md 7.C02"),
+ "C03": dict(
+   technique="stateful property-based testing: rapid-generated render histories over a pool of templates and shared binding environments, with invariants after every step (deep fingerprint, first-result equality, pristine-engine equality, variable probe)",
+   text="Histories of 2..40 renders/reparses over 4..7 templates (some failing part-way depending on the bindings) and 2..4 environments that are realised once and shared by reference; after every step every environment's deep fingerprint (including spare slice capacity) must be unchanged, the render must equal its first result and the result on a fresh engine with fresh equal bindings, and a probe of all assignable and loop variables must render as with fresh bindings.",
+   note="Trusted: hx.Fingerprint (reflect-based deep walk incl. unexported fields, pointer targets and slice capacity). The template object's immutability is observed through its outputs, not by inspecting its memory.",
+   ref="DESIGN.md 7.C03"),
 }
 
 REASON_PENDING = "check not built yet in this snapshot of /verif (planned: see DESIGN.md section 7); nothing is claimed for it"
